@@ -153,7 +153,7 @@ def points(prog):
 
 @st.composite
 def program_strategy(draw, max_ops):
-    prog = draw(ops.program(BUILD, min_size=5, max_size=max_ops, name_pool=["a", "b", "sig"]))
+    prog = draw(ops.program(BUILD, min_size=max(5, max_ops // 2), max_size=max_ops, name_pool=["a", "b", "sig"]))
     if draw(st.booleans()):
         prog = ops.rich_prefix()[:draw(st.integers(10, 75))] + prog
     arrs = draw(st.lists(st.fixed_dictionaries({
